@@ -177,7 +177,7 @@ def run_case(case):
     """Returns (status, violations, n_args) for one case."""
     (cls, method, n, order), gen, dim, xtag = case
     import numdifftools.finite_difference as fdm
-    fdm.FD_RULES.clear()
+    fw.fresh_library_state()
     x = make_x(xtag, dim)
     kind = {'Derivative': 'elementwise', 'Jacobian': 'vector'}.get(cls, 'scalarfun')
     rec = Recorder(kind)
